@@ -105,3 +105,50 @@ Proof.
   - case: Rle_dec => H1; last lra. case: Rlt_dec => H2 //. lra.
   - case: Rle_dec => H1 //. case: Rlt_dec => H2 //. lra.
 Qed.
+
+(* ======== monotone, bounded, nothing before the first pulse, everything after the last ======== *)
+(* ---------------- the delivered amount never decreases and never exceeds what was prescribed ---------- *)
+Lemma overlap_bounds s d T : 0 <= d -> 0 <= overlap s d T <= d.
+Proof.
+  move=> Hd. rewrite /overlap /Rmin. destruct (Rle_dec T (s + d)); rewrite /Rmax;
+  repeat match goal with |- context [Rle_dec ?a ?b] => destruct (Rle_dec a b) end; lra.
+Qed.
+Lemma overlap_mono s d T1 T2 : T1 <= T2 -> overlap s d T1 <= overlap s d T2.
+Proof.
+  move=> H. rewrite /overlap /Rmin. destruct (Rle_dec T1 (s + d)), (Rle_dec T2 (s + d)); rewrite /Rmax;
+  repeat match goal with |- context [Rle_dec ?a ?b] => destruct (Rle_dec a b) end; lra.
+Qed.
+Definition rates_nonneg (ps : list (R * R * R)) : Prop := List.Forall (fun p => 0 <= fst (fst p)) ps.
+Fixpoint prescribed (ps : list (R * R * R)) : R :=
+  match ps with [] => 0 | p :: r => fst (fst p) * snd p + prescribed r end.
+Theorem delivered_mono ps T1 T2 : rates_nonneg ps -> T1 <= T2 -> delivered ps T1 <= delivered ps T2.
+Proof.
+  move=> Hr HT. elim: ps Hr => [|p r IH] Hr /=; first lra.
+  inversion Hr as [|? ? Hp Hr']; subst.
+  have H := overlap_mono (snd (fst p)) (snd p) _ _ HT. have := IH Hr'. nra.
+Qed.
+Theorem delivered_bounded ps T : rates_nonneg ps -> pulses_ok ps -> 0 <= delivered ps T <= prescribed ps.
+Proof.
+  move=> Hr Hok. elim: ps Hr Hok => [|p r IH] Hr Hok /=; first lra.
+  inversion Hr as [|? ? Hp Hr']; subst. inversion Hok as [|? ? [_ Hd] Hok']; subst.
+  have [H0 H1] := overlap_bounds (snd (fst p)) (snd p) T (Rlt_le _ _ Hd). have := IH Hr' Hok'. nra.
+Qed.
+(* before the first pulse nothing has been delivered; after the last one everything has *)
+Theorem delivered_before ps T : pulses_ok ps -> List.Forall (fun p => T <= snd (fst p)) ps -> delivered ps T = 0.
+Proof.
+  move=> Hok. elim: ps Hok => [|p r IH] Hok Hb /=; first reflexivity.
+  inversion Hok as [|? ? [_ Hd] Hok']; subst. inversion Hb as [|? ? Hp Hb']; subst.
+  rewrite (overlap_none _ _ _ (Rlt_le _ _ Hd) Hp) (IH Hok' Hb'). ring.
+Qed.
+Theorem delivered_after ps T : pulses_ok ps -> List.Forall (fun p => snd (fst p) + snd p <= T) ps ->
+  delivered ps T = prescribed ps.
+Proof.
+  move=> Hok. elim: ps Hok => [|p r IH] Hok Hb /=; first reflexivity.
+  inversion Hok as [|? ? [_ Hd] Hok']; subst. inversion Hb as [|? ? Hp Hb']; subst.
+  by rewrite (overlap_full _ _ _ (Rlt_le _ _ Hd) Hp) (IH Hok' Hb').
+Qed.
+Lemma prescribed_regimen dose s d p n : 0 < d -> prescribed (regimen_pulses dose s d p n) = dose * INR n.
+Proof.
+  move=> Hd. elim: n s => [|k IH] s; first by rewrite /=; ring.
+  rewrite S_INR. cbn [regimen_pulses prescribed fst snd]. rewrite IH. field. lra.
+Qed.
